@@ -666,8 +666,8 @@ fn residues<const P: i64>(ctx: &mut Ctx, rng: &mut Rng, n: usize) {
 // modular solver
 
 fn modular(ctx: &mut Ctx, rng: &mut Rng, k: usize) {
-    let n = 1 + rng.below(5);
-    let bc = 1 + rng.below(3);
+    let mut n = 1 + rng.below(5);
+    let mut bc = 1 + rng.below(3);
     let mag = *rng.pick(&[1i64, 9, 1000, 1_000_000, 1_000_000_000]);
     let mut a: Vec<Vec<i64>> = (0..n).map(|_| (0..n).map(|_| rng.range(-mag, mag)).collect()).collect();
     let style = k % 8;
@@ -709,6 +709,30 @@ fn modular(ctx: &mut Ctx, rng: &mut Rng, k: usize) {
             b = (0..n).map(|_| (0..bc).map(|_| BIG_PRIME * rng.range(-1000, 1000) * if rng.chance(1, 3) { 1_000_000 } else { 1 }).collect()).collect();
         }
         ctx.count("modsolve.vanishing_digit_family");
+    }
+    if style == 4 || style == 5 {
+        // solutions that sit (almost) on the Hadamard bound, at magnitudes swept log-uniformly so that some
+        // power of the prime falls just above the bound: numerator and denominator of the solution are as
+        // large as the lifting is dimensioned for (1x1: c/a with |c| ~ |a|; 2x2: rotation-dilation with a
+        // right-hand side nearly parallel to a column)
+        let m = 2f64.powf(rng.below(3000) as f64 / 100.0) as i64 + 2;
+        let near = |rng: &mut Rng| -> i64 {
+            let v = rng.range(((m as f64 / 1.3) as i64).max(1), m);
+            if rng.chance(1, 2) { v } else { -v }
+        };
+        bc = 1;
+        if style == 4 {
+            n = 1;
+            a = vec![vec![near(rng)]];
+            b = vec![vec![near(rng)]];
+        } else {
+            n = 2;
+            let (x, y) = (near(rng), near(rng));
+            a = vec![vec![x, y], vec![-y, x]];
+            let e = if rng.chance(1, 2) { 1 } else { -1 };
+            b = if rng.chance(1, 2) { vec![vec![x - e], vec![-y]] } else { vec![vec![y], vec![x - e]] };
+        }
+        ctx.count("modsolve.near_hadamard_bound_family");
     }
     let input = || json!({"a": a.iter().map(|r| r.iter().map(|x| x.to_string()).collect::<Vec<_>>()).collect::<Vec<_>>(), "b": b.iter().map(|r| r.iter().map(|x| x.to_string()).collect::<Vec<_>>()).collect::<Vec<_>>()});
     let am: VecMatrix<i64> = to_vm(&a, n);
@@ -955,6 +979,7 @@ pub fn run(cfg: &Cfg) -> Report {
     report.require_counter("modsolve.some", (nmod / 4) as u64);
     report.require_counter("modsolve.singular_mod_p_only", 10);
     report.require_counter("modsolve.vanishing_digit_family", 100);
+    report.require_counter("modsolve.near_hadamard_bound_family", 1000);
     report.require_counter("periodic_graphs", (npg / 2) as u64);
     report.require_counter("cases.Matrix<BigRational,N,M>", 100);
     report.require_counter("cases.Matrix<i64,N,M>", 100);
